@@ -10,6 +10,7 @@
 #[allow(dead_code, unreachable_pub)]
 pub mod util;
 mod c01;
+mod c02;
 mod c03;
 mod c04;
 mod c05;
@@ -80,6 +81,7 @@ fn main() {
         "c10_layer_paths" => c03::layer_paths(thorough),
         "c11_delete" => c11::delete(thorough),
         "c01_layers" => c01::layers(thorough),
+        "c02_layers" => c02::layers(thorough),
         "c13_order" => c13::order(thorough),
         "c14_normalize" => c14::normalize(thorough),
         "c18_inventory" => c18::inventory(thorough),
